@@ -53,6 +53,8 @@ def tensor_items(tier):
         per = [(d, r) for d in dists for r in rew]
         if S == 3 and tier == 'quick':
             per = per[::2]
+        if S == 3 and A == 2 and tier == 'thorough':
+            per = per[::3]
         if S == 2 and A == 3 and tier == 'quick':
             per = [per[0], per[3], per[4], per[5]]
         names = 'abc'[:A]
